@@ -369,7 +369,8 @@ def conv_round(chk, drv, items, mechanism):
             continue
         if isinstance(m, dict) and "__err__" in m:
             raise InfraError(f"model error {m} on {s}")
-        if dumps(m) != dumps(impl["ok"]):
+        agree = dumps(m) == dumps(impl["ok"])
+        if not agree:
             chk.disagreement(mechanism, {"schema": s, "nullable_name": nn, "resp": resp, "update_quantifiers": updq},
                              canon(m), canon(impl["ok"]))
         if resp or not updq or not in_spec(s):
@@ -377,7 +378,7 @@ def conv_round(chk, drv, items, mechanism):
         # replay: what the converted schema lets through must conform to the OpenAPI schema (request side)
         conv = impl["ok"]
         rewrites = any(isinstance(impl_upd(p, lo, hi), str) and impl_upd(p, lo, hi) != p for p, lo, hi in G.pattern_requests(s))
-        exact = fr is True and not rewrites  # hypotheses of C01_nullable_exact hold outright (PatExact trivially)
+        exact = fr is True and not rewrites and agree  # hypotheses of C01_nullable_exact hold outright (PatExact trivially)
         if fr is True:
             chk.feature(f"{mechanism}:in-fragment-of-C01_nullable_exact" + ("" if not rewrites else "(with pattern rewrite)"))
         for v in insts:
@@ -575,7 +576,7 @@ def gen_regex_cases(chk, n):
 
 def exhaustive_regex_cases(chk):
     pats = G.exhaustive_patterns(chk.thorough)
-    lens = [None, 0, 1, 2, 3] if not chk.thorough else [None, 0, 1, 2, 3, 4, 6]
+    lens = [None, 0, 1, 3] if not chk.thorough else [None, 0, 1, 2, 3, 4, 6]
     return [(p, lo, hi) for p in pats for lo in lens for hi in lens]
 
 
@@ -759,6 +760,26 @@ def param_schema(doc, d):
     return d.get("schema", {})
 
 
+def inline_refs(schema, root, depth=6):
+    """replace local `$ref`s by their targets (for classifying a violation; the judgement itself resolves references)"""
+    if depth <= 0:
+        return schema
+    if isinstance(schema, dict):
+        ref = schema.get("$ref")
+        if isinstance(ref, str) and ref.startswith("#/"):
+            node = root
+            try:
+                for tok in ref[2:].split("/"):
+                    node = node[tok.replace("~1", "/").replace("~0", "~")]
+            except (KeyError, TypeError):
+                return schema
+            return inline_refs(copy.deepcopy(node), root, depth - 1)
+        return {k: inline_refs(v, root, depth) for k, v in schema.items()}
+    if isinstance(schema, list):
+        return [inline_refs(v, root, depth) for v in schema]
+    return schema
+
+
 def draw_cases(op, gc, n, seed):
     from hypothesis import HealthCheck, Phase, given, settings
     from hypothesis import seed as hseed
@@ -793,10 +814,12 @@ def draws_round(chk, drv, docs, n_draws, mechanism="draws"):
     for i, doc in enumerate(docs):
         gc = GenerationConfig(allow_x00=rng.random() < 0.5, codec=rng.choice(["utf-8", "utf-8", "ascii"]),
                               with_security_parameters=rng.random() < 0.5)
+        if "gc" in doc:
+            gc = GenerationConfig(**doc["gc"])
         nn, raw = doc["nn"], doc["raw"]
         try:
             _, op = load_operation(doc)
-            cases = draw_cases(op, gc, n_draws, chk.seed * 100003 + i)
+            cases = draw_cases(op, gc, doc.get("draws", n_draws), chk.seed * 100003 + i)
         except Exception as e:  # noqa: BLE001
             name = type(e).__name__
             chk.case(mechanism, key=[dumps(raw), "error"], nontrivial=True)
@@ -868,12 +891,13 @@ def draws_round(chk, drv, docs, n_draws, mechanism="draws"):
                         ok = True
                     if not ok:
                         sig, extra = None, {}
-                        if "$ref" not in json.dumps(doc["body"]):
-                            r = classify_pattern(doc["body"], nn, body)
+                        flat = inline_refs(doc["body"], raw)
+                        if "$ref" not in json.dumps(flat):
+                            r = classify_pattern(flat, nn, body)
                             if r is None:
-                                repc = drv.one("conv", {"cfg": cfg_for(chk, doc["body"], nn, vForbid="repaired"), "schema": doc["body"],
-                                                        "fuel": 2 * py_depth(doc["body"]) + 8})
-                                r = classify_rest(doc["body"], nn, body, repc)
+                                repc = drv.one("conv", {"cfg": cfg_for(chk, flat, nn, vForbid="repaired"), "schema": flat,
+                                                        "fuel": 2 * py_depth(flat) + 8})
+                                r = classify_rest(flat, nn, body, repc)
                             sig, extra = r
                             if sig.startswith("C01:to_json_schema:converted-schema-accepts"):
                                 sig = None
@@ -954,6 +978,12 @@ DRAW_WITNESSES = [
     _doc30([{"name": "q", "in": "query", "required": True, "schema": W_F5}]),
     _doc30([], W_F4),
     _doc30([{"name": "id", "in": "path", "required": True, "schema": W_F28}]),
+    # plain string header / cookie / query values under allow_x00=False and codec=ascii (F40 is the header codec gap)
+    {**_doc30([{"name": "X-H", "in": "header", "required": True, "schema": {"type": "string"}},
+               {"name": "c", "in": "cookie", "required": True, "schema": {"type": "string"}},
+               {"name": "q", "in": "query", "required": True, "schema": {"type": "string"}}],
+              {"type": "object", "properties": {"s": {"type": "string"}}, "required": ["s"], "additionalProperties": False}),
+     "gc": {"allow_x00": False, "codec": "ascii"}, "draws": 80},
 ]
 
 
@@ -962,12 +992,47 @@ def run(chk):
     S.selfcheck(chk, chk.budget(150, 1500))
     detect_variants(chk)
     chk.assumptions += [
-        "hypothesis-jsonschema's from_schema(s) yields only instances valid for s (third-party contract, sampled by the draw replay)",
+        "hypothesis-jsonschema's from_schema(s) yields only instances valid for s (third-party contract; sampled by the draw replay)",
         "the meaning of `pattern` is Python `re.search` (what jsonschema and the generator use); `$` is read as end of input "
         "(hypothesis-jsonschema generates no trailing newline); strings ending in a newline are not generated by this check",
+        "C01_nullable_exact is relative to PatExact (the pattern rewriter is exact where it rewrites); C01_pattern_merge_sound "
+        "proves the inclusion half of it on the regex tree for anchored width-1 shapes; the tie between pattern text and tree is "
+        "the correspondence run (sre_parse on both sides)",
+        "values compared through the string coercion of their location: a header/cookie/path/query value may stand for the JSON "
+        "number / true / false / null it spells",
     ]
     chk.trusted += ["harness/gens/schemas.py + lean/SV/Spec/JsonSchema.lean (shared reference semantics, self-checked against "
-                    "jsonschema on every run)"]
+                    "jsonschema on every run)",
+                    "Python `re` as the oracle for regular-expression matching in the replay of rewritten patterns",
+                    "jsonschema Draft4Validator extended with nullable/readOnly (harness/corr/c01.py) as the independent oracle; "
+                    "it must agree with the Lean specification on every judged value (else exit 2)"]
+    chk.proved += [
+        "C01_nullable_exact: converted schema == OpenAPI request-side reading on the fragment (any nesting of nullable, scalars "
+        "keywords, pattern/length, items, properties, additionalProperties, patternProperties, allOf/anyOf/oneOf/not)",
+        "C01_readonly_never_sent (repaired forbid site, any number of readOnly names, earlier `not` allowed); "
+        "C01_readonly_never_sent_partial (as found: one readOnly name, no earlier `not`); witnesses F4, F4b",
+        "C01_params_object: the per-location object schema accepts exactly {all required present, only declared names, each "
+        "value valid}",
+        "C01_pattern_merge_sound: anchored, width-1 repeats, single repeat or multi-part distribution (exact search + range), "
+        "new pattern implies old pattern and length within bounds; witnesses F5, F28, F32, F35, F36",
+    ]
+    chk.partial += [
+        "readOnly inside the equivalence theorem: the fragment of C01_nullable_exact excludes readOnly properties (they have "
+        "their own one-level theorems); `$ref`, `type: file`, tuple `items`, dict literals in enum/const are outside the fragment",
+        "pattern merging: only the inclusion direction is proved, and only for patterns anchored at both ends whose repeats are "
+        "one character wide; the text-level scanning of _handle_anchored_pattern/_find_quantified_end is not modelled "
+        "(F38/F38b/F38c are found by the correspondence run, not by proof)",
+        "the post-generation pipeline (serialize, is_valid_* filters, quote_all, jsonify) and prepare_schema's $ref inlining are "
+        "not modelled: covered by the draw replay only",
+        "the converse direction (an operation with conforming inputs does get cases) is only checked for crashes "
+        "(TypeError/InternalError) of the conversion; Unsatisfiable/health-check outcomes are counted, not judged",
+    ]
+    chk.sampled_only += [
+        "instances drawn by hypothesis-jsonschema satisfy the converted schema; allow_x00 / codec restrictions (F39, F39b, F40 found)",
+        "get_schema_for_location / make_positive_strategy header-format injection (correspondence on generated documents, "
+        "OpenAPI 2.0 / 3.0 / 3.1)",
+        "$ref'd components, required body / parameters presence, undeclared names: judged on real as_strategy(POSITIVE) draws",
+    ]
     # witnesses first
     wit = [(W_F4, "nullable", False, True, [W_F4_INSTANCE, {}, {"a": 1, "b": 2}]),
            (W_F5, "nullable", False, True, [W_F5_INSTANCE, "abc"]),
@@ -975,38 +1040,80 @@ def run(chk):
            (W_F32, "nullable", False, True, [W_F32_INSTANCE, "a"]),
            (W_F33, "nullable", False, True, [{}])]
     conv_round(chk, drv, wit, "witness")
-    conv_round(chk, drv, gen_conv_items(chk, chk.budget(1200, 12000)), "conv")
+    conv_round(chk, drv, gen_conv_items(chk, chk.budget(1000, 10000)), "conv")
     conv_round(chk, drv, gen_conv_items(chk, chk.budget(150, 1500), spice=0.5), "conv-spiced")
     docs = [G.gen_document(chk.rng, chk.rng.choice(["3.0", "3.0", "2.0", "3.1"])) for _ in range(chk.budget(150, 1500))]
     location_round(chk, drv, docs, "location")
-    ddocs = [G.gen_document(chk.rng, chk.rng.choice(["3.0", "3.0", "2.0"]), body_depth=chk.rng.choice([1, 2])) for _ in range(chk.budget(24, 220))]
+    ddocs = [G.gen_document(chk.rng, chk.rng.choice(["3.0", "3.0", "2.0"]), body_depth=chk.rng.choice([1, 2]))
+             for _ in range(chk.budget(22, 200))]
     draws_round(chk, drv, DRAW_WITNESSES + ddocs, chk.budget(10, 25))
-    regex_round(chk, drv, [("^[0-9]{1,3}?a{1,3}\\+{1,3}?\\Z", 3, 3), ("^\\+?b+(?:ab)\\Z", 2, None), ("^(?:ab)[0-9]+$", None, 4), ("^a[0-9]*$", None, 1), ("^(ab)+$", None, 3),
-                           ("[a-z]", None, 3), ("^a$", None, 3), ("[ab]", 3, 1)], "regex-witness")
+    regex_round(chk, drv, REGEX_WITNESSES, "regex-witness")
     ex = exhaustive_regex_cases(chk)
     regex_round(chk, drv, ex, "regex-exhaustive")
     regex_round(chk, drv, gen_regex_cases(chk, chk.budget(1500, 15000)), "regex-random")
     chk.notes.append(f"regex-exhaustive: {len(ex)} (pattern, minLength, maxLength) triples: every lead x atom x quantifier x trail "
-                     "single-part pattern and all 2/3-part anchored sequences over a small alphabet, lengths in a grid")
+                     "single-part pattern and all 2/3-part anchored sequences over a small alphabet, lengths in a grid; multi-part "
+                     "patterns with lazy/possessive suffixes, quantified escaped metacharacters or (?:...) are outside the tree model "
+                     "(text-level defects F38*, witnesses only)")
     chk.exhaustive = False
+
+
+REGEX_WITNESSES = [("^[0-9]{1,3}?a{1,3}\\+{1,3}?\\Z", 3, 3), ("^\\+?b+(?:ab)\\Z", 2, None), ("^(?:ab)[0-9]+$", None, 4),
+                   ("^a[0-9]*$", None, 1), ("^(ab)+$", None, 3), ("[a-z]", None, 3), ("^a$", None, 3), ("[ab]", 3, 1)]
 
 
 def replay(chk, data):
     print(data.get("what"))
     r = data["replay"]
-    print("recorded:", json.dumps(r, ensure_ascii=False)[:2000])
+    print("recorded:", json.dumps(r, ensure_ascii=False, default=str)[:3000])
     drv = chk.driver()
     detect_variants(chk)
-    if "schema" in r:
+    print("variants exhibited by the tree:", chk.variants)
+    if "correspondence" in r and isinstance(r.get("input"), dict):
+        r = {**r, **r["input"]}
+    if "schema" in r and "location" not in r:
         s, nn = r["schema"], r.get("nullable_name", "nullable")
-        impl = impl_conv(s, nn)
+        impl = impl_conv(s, nn, r.get("resp", False), r.get("update_quantifiers", True))
         print("impl now :", json.dumps(impl, ensure_ascii=False))
-        print("model    :", json.dumps(drv.one("conv", {"cfg": cfg_for(chk, s, nn), "schema": s, "fuel": 2 * py_depth(s) + 8}),
-                                       ensure_ascii=False))
+        print("model    :", json.dumps(drv.one("conv", {"cfg": cfg_for(chk, s, nn, r.get("resp", False), r.get("update_quantifiers", True)),
+                                                         "schema": s, "fuel": 2 * py_depth(s) + 8}), ensure_ascii=False))
         if "instance" in r and "ok" in impl:
             v = r["instance"]
             print("converted schema accepts instance:", js_valid(impl["ok"], v))
             print("OpenAPI schema accepts instance (python oracle):", oas_valid(s, v, nn))
             print("OpenAPI schema accepts instance (Lean spec):",
                   drv.one("valid", {"env": S.lean_env(s, v, oas="request", nullable=nn), "schema": s, "instance": v}))
+    elif "pattern" in r:
+        p, lo, hi = r["pattern"], r.get("minLength"), r.get("maxLength")
+        impl = impl_upd(p, lo, hi)
+        print("update_quantifier now:", impl)
+        try:
+            items = sre_items(p)
+            v = {"zeroMax": chk.variants.get("distribute_zero_max"), "atom": chk.variants.get("atom_min_gt_max")}
+            print("model tree :", json.dumps(drv.one("regex", {"v": v, "items": items, "lo": lo, "hi": hi})))
+            if isinstance(impl, str):
+                print("impl tree  :", json.dumps(sre_items(impl)))
+        except Exception as e:  # noqa: BLE001
+            print("pattern does not parse:", e)
+        if "string" in r and isinstance(impl, str):
+            t = r["string"]
+            print(f"string {t!r}: matches rewritten={bool(re.search(impl, t))} matches original={bool(re.search(p, t))} length={len(t)}")
+    elif "document" in r:
+        from schemathesis.generation import GenerationConfig
+        doc = {"raw": r["document"]}
+        doc["path"] = next(iter(doc["raw"]["paths"]))
+        doc["method"] = "POST"
+        _, op = load_operation(doc)
+        if "location" in r and "case" not in r:
+            print("impl now :", json.dumps(impl_location(op, r["location"]), ensure_ascii=False, default=str)[:3000])
+        else:
+            gen = r.get("generation", {})
+            try:
+                cases = draw_cases(op, GenerationConfig(allow_x00=gen.get("allow_x00", True), codec=gen.get("codec", "utf-8")),
+                                   80 if "seed" not in r else 25, r.get("seed", 0))
+                for c in cases[:25]:
+                    print("case:", {"path": c.path_parameters, "query": c.query, "headers": c.headers, "cookies": c.cookies,
+                                    "body": c.body})
+            except Exception as e:  # noqa: BLE001
+                print("as_strategy / draw raises:", type(e).__name__, str(e)[:500])
     return 0
